@@ -10,8 +10,8 @@ attributes are data descriptors that log each read; queries are built through th
 or_, not_, contains, comparison operators, attribute chains).  For every query and every n = 0 .. rows+1 a FRESH query is
 built (the construction log must stay empty), n results are pulled from an(...).evaluate(), and the log is compared with
 the model's trace_n EVENT FOR EVENT (Pull / End / Get / Yield).  Further families: re-evaluation after an abandoned iterator (same
-query object, rebuilt query, another query over the same variables; model: trace_seq), silent construction through the match API,
-and exists / for_all shapes (Spec predicates on the implementation's logs only)."""
+query object, rebuilt query, another query over the same variables; model: trace_seq) and silent construction through the match
+API.  exists / for_all are part of the model (scratch list of Exists, candidate loop of ForAll with its early break)."""
 from __future__ import annotations
 
 import json
@@ -655,7 +655,7 @@ def run(tier: str, seed: int, replay=None) -> int:
     rep = Report(PROP, tier, seed, "other")
     rep.trusted = core.COQ_TRUSTED + [
         "hand-written model Eql/Trace.v of the generator pipeline of symbolic.py (Variable / Literal / Attribute / Comparator / AND / "
-        "ElseIf / Union (second pass: true results only) / Not, QueryObjectDescriptor.evaluate_selected_variables (lazy nested loops, bindings threaded), An._evaluate__) and of the "
+        "ElseIf / Union (second pass: true results only) / Not / Exists (scratch list) / ForAll (candidate solutions, narrowing, early break), QueryObjectDescriptor.evaluate_selected_variables (lazy nested loops, bindings threaded), An._evaluate__) and of the "
         "domain cache hashed_data.py HashedIterable.__iter__ (replay of the cached elements, then the shared one-shot generator), "
         "tied by comparing event logs through the public API",
         "harness/c10.py: logging one-shot generators, logging attribute descriptors (classes LP / LT), log canonicaliser; "
@@ -666,20 +666,20 @@ def run(tier: str, seed: int, replay=None) -> int:
         "LEVEL partial: the theorems bound the demand of the MODEL; that the real engine runs user code exactly when the model "
         "says is established by the event-for-event comparison on generated queries, not by proof",
         "vocabulary: variables over explicit domains, literals (ints, int lists), attribute chains, comparisons, contains/in_, and_, or_, "
-        "not_, entity/set_of; quantifier-free (exists / for_all are eager consumers and are not modelled here); predicates, "
-        "flatten, indexing, calls, rule trees are not modelled",
+        "not_, exists, for_all, entity/set_of; predicates, flatten, indexing, calls, rule trees are not modelled",
         "domains are duplicate-free (since 1997e3c a repeated element is pulled from the generator but skipped by the cache, so it is yielded "
         "once; the model enumerates D x as given and does not model the skipped pull) "
         "and every variable has its own generator; queries are tree-shaped (no node object used twice)",
         "one consumer per query: iterators resumed in an interleaved fashion are C03's subject",
-        "the demand bound (Spec bit 4) is relative to a single-pass nested-loop enumerator and is applied to union-free conditions",
+        "on the real engine's logs the demand bound (Spec bit 4) is applied to conditions without Union and without for_all (the second-pass mark of the two-part bound is not observable); for Union the two-part bound is a theorem about the model (C10_demand), for_all is outside (C10_forall_eager)",
     ]
     rep.assume.append("re-evaluation scenarios: the first iterator is closed before the second evaluation starts (two LIVE iterators over one "
                       "variable are C03's subject); the model of the second evaluation is the same evaluator started from the log the first left")
-    rep.assume.append("quantified queries (exists / for_all) and match-API constructions have NO model: the Spec predicates (silent construction, "
-                      "prefix, pull order, read-ahead) are evaluated on the real engine's logs only; Spec bit 8 (read-ahead) and the re-evaluation "
-                      "bit 4 (a repeated evaluation that needs only cached elements touches no generator) are not proved of the model, they are "
-                      "checked on the model's logs through the event-for-event comparison")
+    rep.assume.append("match-API constructions have NO model: silent construction is observed on the real engine only. Spec bit 8 (no read-ahead) "
+                      "is proved of the model for the classes attr_only_strict / attr_only_len (C10_no_read_ahead) and the re-evaluation bit 4 for "
+                      "queries without exists (C10_reeval_quiet); for exists queries bit 4 is checked on the logs only")
+    rep.assume.append("the log entries Frame / Note / Pass of the model are bookkeeping (scratch list of an Exists call, start of a Union's second "
+                      "pass): no user code runs, show_trace drops them before the comparison")
     rep.rule = ("four families, all seeded. (1) random quantifier-free queries (harness/eqlgen.py, profile c01): 1-3 variables over object / "
                 "value-equal-twin / int domains of 0-4 elements given as logging one-shot generators, conditions of depth <= 3, 1-3 selected "
                 "expressions; every query is rebuilt and run for EVERY n = 0 .. rows+1 and in full; one evaluation = one (query, n) pair. "
@@ -687,7 +687,8 @@ def run(tier: str, seed: int, replay=None) -> int:
                 "from the same an(...) object / a rebuilt query / another query (sub-condition, negation, other selection) over the SAME "
                 "let-variables, built after the first evaluation; log compared with the model's trace_seq. (3) construction through the match API: "
                 "an(entity_matching(T, generator)(kw...)) with literals, let-variables over generator domains, nested match / select / match_any / "
-                "match_all as keyword values; the construction log must be empty. (4) queries with exists / for_all (profile quant) for every n. "
+                "match_all as keyword values; the construction log must be empty. (4) 150 (quick) / 2500 (thorough) queries with exists / for_all "
+                "(profile quant) are part of families 1 and 2 since the model covers them. "
                 "non-trivial = at least one domain element was pulled (families 1, 2, 4) / a keyword value is a variable (family 3)")
     ok_spec, log = core.coq_make(["Base/Sx.vo", "Eql/TraceSpec.vo"])
     rep.oblige("build:spec", ok_spec, "" if ok_spec else core.first_error(log))
@@ -707,8 +708,6 @@ def run(tier: str, seed: int, replay=None) -> int:
     # ---- cases
     cases: List[dict] = []
     origin: List[str] = []
-    qcases: List[dict] = []            # quantified shapes: no model, Spec predicates on the implementation's logs only
-    qorigin: List[str] = []
     seq_jobs: List[Tuple[dict, dict]] = []
     match_scs: List[dict] = []
     family = (replay or {}).get("family")
@@ -925,36 +924,8 @@ def run(tier: str, seed: int, replay=None) -> int:
     if len(mbad) > 2:
         rep.note(f"{len(mbad)} match-API constructions ran user code (2 smallest reported)")
 
-    # ---- quantified shapes (exists / for_all): Spec predicates on the implementation's logs
-    qimpl = run_impl_many(qcases) if qcases else []
-    qran = [k for k, i in enumerate(qimpl) if "exc" not in i]
-    qspec = dict(zip(qran, coq_spec([qcases[k] for k in qran], [qimpl[k] for k in qran]))) if qran else {}
-    qdist = {"queries": len(qcases), "pairs": 0, "exceptions": len(qcases) - len(qran), "forall": 0, "exists": 0}
-    qbad = []
-    for k, (c, o) in enumerate(zip(qcases, qorigin)):
-        st = eqlgen.stats(c)
-        qdist["forall"] += int(st.get("forall", 0) > 0)
-        qdist["exists"] += int(st.get("exists", 0) > 0)
-        if k not in qspec:
-            continue
-        i = qimpl[k]
-        for n, l in enumerate(i["ks"]):
-            qdist["pairs"] += 1
-            rep.count(json.dumps(["q", c, n], sort_keys=True), n >= 1 and any(e[0] == 0 for e in l))
-        code = qspec[k][1] | (16 if i["build"] else 0)
-        if code:
-            qbad.append((c, o, code, i))
-    for c, o, code, i in sorted(qbad, key=lambda t: len(json.dumps(t[0])))[:2]:
-        rep.violation({"kind": "counterexample", "family": "quantified", "origin": o, "case": c, "spec_code": code, "spec_misses": explain(code),
-                       "impl": {"build": canon_log(i["build"]), "full": canon_log(i["full"]), "ks": [canon_log(l) for l in i["ks"]]},
-                       "python": snippet(c, None),
-                       "explanation": "query with exists / for_all (no model: the Spec predicates of Eql/TraceSpec.v are evaluated on the real engine's logs). "
-                                      "events [0,x,i] pull, [1,x] generator finished, [2,obj,attr] getattr, [3,row] result; ks[n] = log after pulling n results"})
-    if len(qbad) > 2:
-        rep.note(f"{len(qbad)} quantified queries miss the Spec (2 smallest reported)")
     rep.extra["reevaluation"] = sdist
     rep.extra["match_construction"] = mdist
-    rep.extra["quantified"] = qdist
 
     # ---- known findings: replay the witnesses
     for f in findings:
